@@ -19,8 +19,8 @@ OWN = {
   "Trusted: Lean kernel; axioms propext/Classical.choice/Quot.sound at most; xlate/x_pwd.py (validated each run by the exhaustive 32x8x16 table comparison); the C compiler for the bit-field semantics.",
   "Lean 4 proof over a model regenerated from source + exhaustive differential", "DESIGN.md §3 C20"),
  "C18": chk("C18",
-  "Lean theorems for every number of threads, every assignment of operation sequences (grammar of the property) and every sequentially consistent schedule, about a hand-written small-step model of mtCallOnce and of the shared generator of rng.c: mutual exclusion, lock discipline, initialiser runs exactly once and is visible to every returning caller, no data race (conflicting accesses are ordered by the mutex, by the once-gate, or both atomic), balanced reference count, no use after release, every request filled and no two output blocks equal. The model is tied to the source by (a) the shared-access table regenerated from rng.c/mt.c on every run, which must equal the model's table (kernel-checked), and (b) sequential refinement against the real functions. Partial: weak-memory reorderings are not exhibited by an SC model.",
-  "Trusted: Lean kernel (axioms propext/Quot.sound at most); xlate/x_c18_access.py; harness/c18.c. Modelled, not verified: pthread mutex = mutual exclusion, __sync builtins = atomic RMW, brngCTRStepR = 'consume next CTR positions' (distinct keys per epoch is a cryptographic assumption), SC memory model; not modelled: exit-time rngDestroy, counter overflow at 2^64 references. Real-thread ThreadSanitizer runs are supporting evidence and the search oracle, not the proof.",
+  "Lean theorems for every number of threads, every assignment of operation sequences (grammar of the property) and every sequentially consistent schedule, about a hand-written small-step model of mtCallOnce and of the shared generator of rng.c: mutual exclusion, lock discipline, initialiser runs exactly once and is visible to every returning caller, no data race (conflicting accesses are ordered by the mutex, by the once-gate, or both atomic), balanced reference count, no use after release, every request filled and no two output blocks equal. The model is tied to the source by (a) the shared-access table regenerated from rng.c/mt.c on every run, which must equal the model's table (kernel-checked), (a2) an inventory of EVERY mutable static-storage object of the compiled library (nm) with the grammar's call sites that reach it and the mutex state there: each must be one of the model's five variables, unreachable from the grammar, never written, or reached only with _mtx held / inside rngInit (statics_classified by decide; protected_exclusive proves such program points are never occupied by two threads), and (b) sequential refinement against the real functions. Partial: weak-memory reorderings are not exhibited by an SC model.",
+  "Trusted: Lean kernel (axioms propext/Quot.sound at most); xlate/x_c18_access.py; xlate/x_c18_statics.py (object inventory exact via nm; users and call graph textual, indirect calls listed and whitelisted); harness/c18.c. Modelled, not verified: pthread mutex = mutual exclusion, __sync builtins = atomic RMW, brngCTRStepR = 'consume next CTR positions' (distinct keys per epoch is a cryptographic assumption), SC memory model; not modelled: exit-time rngDestroy, counter overflow at 2^64 references. Real-thread ThreadSanitizer runs are supporting evidence and the search oracle, not the proof.",
   "Lean 4 proof (invariants over an interleaving semantics) + regenerated access table + sequential differential", "DESIGN.md §3 C18"),
  "C19": chk("C19",
   "Lean: parametricity corollaries (word size, SAFE/FAST edition, octets per word) re-exported from the areas' model = specification theorems, so a statement about one configuration of a MODEL is a statement about the others. Tie: the identical op streams of the other areas (currently C01 belt, C03 bash/brng/botp, C05 arithmetic) are replayed against differently built copies of the library (64-bit words: ASan release, BUILD_FAST, -O0; 32-bit words; bash-f BASH_32/SSE2/AVX2/AVX-512 as far as the CPU has them; thorough adds assertion-enabled, -O2/NDEBUG, plain release, 32-bit fast/debug) and each configuration must agree with the area's Lean driver, with the reference configuration, and (octet-level ops) across word sizes. Partial: configurations are compared on the generated streams (sampling of inputs); optimisation levels, NDEBUG and SIMD variants are not modelled.",
